@@ -675,7 +675,11 @@ def r6(R):
         other = [n for n in names if n != tl_name][0]
         defs = [d for d in b.local_defs(f).get(other, [])
                 if isinstance(d, ast.AST)]
-        if not any('read(8)' in ast.unparse(d) for d in defs):
+        # read from the file: some 8-byte read
+        if not any(isinstance(c_, ast.Call) and len(c_.args) == 1 and
+                   isinstance(c_.args[0], ast.Constant) and
+                   c_.args[0].value == 8
+                   for d in defs for c_ in ast.walk(d)):
             return None
         if isinstance(c.ops[0], ast.NotEq):
             return 'F'
